@@ -356,6 +356,8 @@ def jobs(tier):
     js = [Job("axilite_sram_d8", build_axilsram, dict(dw=8, depth=8, K=K), cost=5),
           Job("axilite2wishbone_d8", build_axil2wb, dict(dw=8, depth=8, K=K + 2), cost=8),
           Job("wishbone2axilite_d8", build_wb2axil, dict(dw=8, depth=8, K=K + 2), cost=8),
+          # a base address that is NOT aligned on the window size (offsets share bits with the base): the base is removed by subtraction
+          Job("axilite2wishbone_d8_base4", build_axil2wb, dict(dw=8, depth=8, K=K + 2, base=0x4), cost=8),
           Job("axilite2csr", build_axil2csr, dict(K=K), cost=6),
           Job("axilite_conv_16to8", build_axil_conv, dict(dwm=16, dws=8, depth_s=8, K=K + 4), cost=15),
           Job("axilite_conv_8to16", build_axil_conv, dict(dwm=8, dws=16, depth_s=4, K=K), cost=8),
